@@ -118,6 +118,26 @@ fn case(a: &[u32], or: Range<usize>, b: &[u32], nr: Range<usize>, out: &mut Loca
             judge("capture_diff(Patience)", &pairs, a, &or, b, &nr, &|| format!("ops={}", fmt_ops(&ops)), out);
         }
     }
+    // old items u32, new items of another type with a different Hash
+    let wb: Vec<crate::mon::WideId> = b.iter().map(|x| crate::mon::WideId(*x as u64)).collect();
+    out.eval();
+    match guard(|| capture_diff(Algorithm::Patience, a, or.clone(), &wb[..], nr.clone())) {
+        Err(p) => out.violation("panic", format!("capture_diff(Patience) over [u32] / [WideId] panicked: {} | old={} new={}", p, fmt_seq(a), fmt_seq(b))),
+        Ok(ops) => {
+            let mut pairs = Vec::new();
+            for op in &ops {
+                if let DiffOp::Equal { old_index, new_index, len } = *op {
+                    for k in 0..len {
+                        if old_index + k < a.len() && new_index + k < b.len() && a[old_index + k] == b[new_index + k] {
+                            pairs.push((old_index + k, new_index + k));
+                        }
+                    }
+                }
+            }
+            judge("capture_diff(Patience) with old [u32] / new [WideId] (different Hash)", &pairs, a, &or, b, &nr, &|| format!("ops={}", fmt_ops(&ops)), out);
+            out.count("heterogeneous_item_type_runs");
+        }
+    }
 }
 
 pub fn families() -> Vec<Box<dyn Family>> {
@@ -230,6 +250,25 @@ pub fn families() -> Vec<Box<dyn Family>> {
                         }
                     }
                 }
+            },
+        ),
+        family(
+            "big_landmarks",
+            "two long mostly unrelated sequences (1500..4800 items each, thorough up to 12000; distinct one-sided fillers) sharing 5..80 in-order landmark items, a few of them crossing: the anchor search runs through thousands of rounds (D ~ N+M)",
+            false,
+            1,
+            |cfg| if cfg.tiny { 1 } else { cfg.tier.pick(10, 60) },
+            |idx, cfg, out| {
+                let mut rng = Rng::for_case(cfg.seed, "c15.big_landmarks", idx);
+                let hi = if cfg.tiny { 12 } else { cfg.tier.pick(4800, 12_000) };
+                let lo = if cfg.tiny { 6 } else { 1500 };
+                let (n, m) = (rng.range(lo, hi), rng.range(lo, hi));
+                let k = rng.range(5, 80);
+                let crossing = rng.below(4);
+                let (a, b) = gen::landmark_pair(&mut rng, n, m, k, crossing);
+                out.sample(|| format!("N={} M={} landmarks<={}", n, m, k));
+                out.count("big_landmark_cases");
+                case(&a, 0..a.len(), &b, 0..b.len(), out);
             },
         ),
     ]
